@@ -188,9 +188,11 @@ Outcome World::apply(const Op& op) {
       case OP_MOVE_SEQ: seq[op.s1].reset(new trompeloeil::sequence(std::move(*seq[op.s1]))); break;
       case OP_NEW_WATCHED: w[op.obj].reset(new WObj); break;
       case OP_DELETE_WATCHED: sort_reports = true; w[op.obj].reset(); break;
-      case OP_COPY_WATCHED: w[op.k1].reset(new WObj(*w[op.obj])); break;
+      case OP_COPY_WATCHED:  // k2 = 0: copy from a const lvalue (the copy constructor proper); k2 = 1: from a non-const lvalue (picks the forwarding constructor)
+        if (op.k2 == 0) w[op.k1].reset(new WObj(static_cast<const WObj&>(*w[op.obj]))); else w[op.k1].reset(new WObj(*w[op.obj]));
+        break;
       case OP_MOVECONS_WATCHED: w[op.k1].reset(new WObj(std::move(*w[op.obj]))); break;
-      case OP_ASSIGN_WATCHED: *w[op.obj] = *w[op.k1]; break;
+      case OP_ASSIGN_WATCHED: *w[op.obj] = static_cast<const WObj&>(*w[op.k1]); break;
       case OP_MOVEASSIGN_WATCHED: *w[op.obj] = std::move(*w[op.k1]); break;
       case OP_PUSH_TRACER:
         if (op.k1 == 0) rec[ntracer].reset(new RecTracer(this, ntracer)); else box[ntracer].reset(new StreamTracerBox(this, ntracer));
